@@ -137,7 +137,7 @@ Definition scrub_eq (m : scrub) (o : list (string * string * string)) : bool :=
   let mk := map (fun e => (path_key (fst (fst e)), snd (fst e), snd e)) m in
   forallb (fun e => existsb (keyed_eqb e) o) mk && forallb (fun e => existsb (keyed_eqb e) mk) o.
 Definition san_agrees (c : sancase) : bool :=
-  let '(res, scr) := sanitize (sTm c) (sSc c) (sInput c) [] in
+  let '(res, scr) := sanitize_op (sTm c) (sSc c) (sInput c) in
   ssels_eqb res (sObsSel c) && scrub_eq scr (sObsScrub c).
 
 Inductive c2 := CStep (c : c2case) | CPlan (p : plancase) | CSan (s : sancase).
